@@ -26,4 +26,4 @@ for d in seeded/*/; do
   run_one seed "$id" "$prop" "/verif/$d/patch.diff"
 done
 mv "$out.new" "$out"
-column -t -s $'\t' "$out" | cut -c1-200
+cat "$out" | cut -c1-200
